@@ -599,6 +599,46 @@ fn specs(quick: bool) -> Vec<ConvSpec> {
             }
         }
     }
+    // accumulation: a reply of thousands of packets (per-connection packet counters, periodic
+    // maintenance on the write side) with a fault at every operation; and hundreds of small
+    // commands each arriving in its own read, then a longer command split behind its header
+    {
+        let c1 = Arc::new(vec![col("n", ColumnType::MYSQL_TYPE_LONG, ColumnFlags::empty())]);
+        let mut p = vec![WOp::Start(c1)];
+        for i in 0..(if quick { 4200 } else { 9000 }) {
+            p.push(WOp::WriteRow(vec![Val::I32(i)]));
+        }
+        p.push(WOp::Finish);
+        v.push(ConvSpec {
+            label: format!("query answered with {} one-cell rows + ping + quit", p.len() - 2),
+            cmds: vec![q(b"many"), ping(), quit()],
+            progs: vec![Arc::new(p)],
+            fail_at: None,
+            auth_reject: false,
+            uniform_read: usize::MAX,
+            write_cap: usize::MAX,
+            cuts: vec![],
+            lockstep: false,
+            sparse: true,
+        });
+        let mut cmds: Vec<ClientCmd> = (0..(if quick { 300 } else { 700 })).map(|_| ping()).collect();
+        let long: Vec<u8> = (0..400).map(|i| b'a' + (i % 26) as u8).collect();
+        cmds.push(q(&long));
+        cmds.push(quit());
+        let split = Conv::new(cmds.clone()).stream().ends[cmds.len() - 2] + 4;
+        v.push(ConvSpec {
+            label: format!("{} pings each in its own read, a 400-byte query split behind its header, quit (lock-step client)", cmds.len() - 2),
+            cmds,
+            progs: vec![],
+            fail_at: None,
+            auth_reject: false,
+            uniform_read: usize::MAX,
+            write_cap: usize::MAX,
+            cuts: vec![split],
+            lockstep: true,
+            sparse: true,
+        });
+    }
     // multi-packet requests: end of stream and faults around every packet header
     for size in if quick { vec![MAXP + 9] } else { vec![MAXP - 1, MAXP, MAXP + 9, 2 * MAXP, 2 * MAXP + 9] } {
         let mut text = vec![b'w'; size - 1];
